@@ -360,7 +360,7 @@ func (r *Run) Finish(meta propMeta) int {
 		"distinct_nontrivial":  len(distinct),
 		"rule":                 "one obligation per (rule, construct) instance found in /repo's working tree; distinct = distinct rule|construct keys",
 		"samples":              samples,
-		"explanation":          meta.Explanation,
+		"explanation":          meta.Explanation + addendumFor(r.Prop),
 		"rule_instance_counts": r.Counts,
 		"rule_floors":          r.Floors,
 		"tables_consulted":     r.Tables,
@@ -538,4 +538,11 @@ func sortedKeys[M ~map[string]V, V any](m M) []string {
 	}
 	sort.Strings(out)
 	return out
+}
+
+func addendumFor(prop string) string {
+	if a, ok := explanationAddenda[prop]; ok {
+		return " " + a
+	}
+	return ""
 }
